@@ -9,6 +9,7 @@ context values, args/kwargs of object definitions.
 """
 import copy
 import json
+import json as _json_mod
 import os
 import types
 from pathlib import Path
@@ -381,6 +382,27 @@ def _part_b(tier):
                     res.violations.append(Violation('config: placeholder in a task import string is not honoured', f'{field}: {spec} with PKG={w.modname}: chain tasks {names}, expected {want}', case))
             except Exception as e:  # noqa
                 res.violations.append(Violation('config: placeholder in a task import string is not honoured', f'{field}: {spec}: {type(e).__name__}: {e}', case))
+        # one caller-owned context whose `uses` names a file through a placeholder, used with two values of the variable
+        for form in ('list', 'str'):
+            cdirs = {}
+            for tag, val in (('one', 1), ('two', 2)):
+                cdirs[tag] = Path(root) / f'ctxdir_{form}_{tag}'
+                cdirs[tag].mkdir(exist_ok=True)
+                (cdirs[tag] / 'ctx.json').write_text(_json_mod.dumps({'s': f'from-{tag}'}))
+            ctx_u = {'uses': ['{CDIR}/ctx.json'] if form == 'list' else '{CDIR}/ctx.json'}
+            snap_u = copy.deepcopy(ctx_u)
+            for tag in ('one', 'two', 'one'):
+                res.add('evaluations')
+                case = {'kind': 'ctx-uses-reuse', 'form': form, 'tag': tag}
+                try:
+                    cfgu = Config(Path(root) / 'data7', name=f'u_{form}', data={'tasks': [f'{w.modname}.A'], 's': 'x'}, context=ctx_u, global_vars={'CDIR': str(cdirs[tag]), 'DIR': '/d', 'N': 1})
+                    got = str(Chain(cfgu)['a'].params['s'])
+                    if got != f'from-{tag}':
+                        res.violations.append(Violation('context: `uses` path substituted for an earlier config is used again for a later one', f'{form} form, CDIR={tag}: s={got!r}', case))
+                    if ctx_u != snap_u or any(type(x) is not str for x in (ctx_u['uses'] if form == 'list' else [ctx_u['uses']])):
+                        res.violations.append(Violation('context: caller-owned context data rewritten by substitution', f'{ctx_u!r}', case))
+                except Exception as e:  # noqa
+                    res.violations.append(Violation('context: `uses` path substituted for an earlier config is used again for a later one', f'{form}: {type(e).__name__}: {e}', case))
         # one config FILE loaded twice in the process with different global_vars: each load substitutes its own values at every depth
         import json as _json
         fdir = Path(root) / 'cfg6'
